@@ -45,6 +45,13 @@ let zero32 = String.make 32 '\000'
 let ops : string ops = { op_hash2 = Sha.hash2; op_empty = zero32; op_eqb = (fun a b -> String.equal a b) }
 let filler = "\001" ^ String.make 31 '\000'
 
+(* bytes <-> extracted [N] lists for the codec mirror *)
+let small_n = Array.init 256 (fun i -> n_of_z (Zr.of_int i))
+let bytes_of_string (s : string) : n list = List.init (String.length s) (fun i -> small_n.(Char.code s.[i]))
+let int_of_n x = Zr.to_int (z_of_n x)
+let string_of_bytes (l : n list) : string =
+  let b = Buffer.create 64 in List.iter (fun x -> Buffer.add_char b (Char.chr (int_of_n x))) l; Buffer.contents b
+
 (* ---------- state ---------- *)
 let cur : string slots ref = ref []
 let stack : string slots list ref = ref []
@@ -285,6 +292,37 @@ let handle (toks : string list) =
     check "prop" ("TTLS." ^ label) (exp = got)
       (fun () -> Printf.sprintf "spec=%s impl=%s"
           (String.concat "|" (List.map (fun b -> String.concat "," (List.map (fun (p, v) -> p ^ ":" ^ v) b)) exp)) t)
+  (* WIREPOL label numdels hex : the bytes Pollard.WriteTo produced = encoding of the reference forest *)
+  | ["WIREPOL"; label; numdels; hx] ->
+    let c = ctx () in
+    let exp = string_of_bytes (encode_pollard_of_forest bytes_of_string (forest ops c.cs) c.cn (n_of_string numdels)) in
+    check "prop" ("WIREPOL." ^ label) (String.equal exp (unhex hx))
+      (fun () -> Printf.sprintf "model_len=%d impl_len=%d model=%s impl=%s" (String.length exp) (String.length hx / 2)
+          (hex_of (String.sub exp 0 (min 80 (String.length exp)))) (String.sub hx 0 (min 160 (String.length hx))));
+    (* and the mirror decoder restores exactly the live leaves *)
+    (match decode_pollard_bytes (bytes_of_string (unhex hx)) with
+     | Some (img, consumed) ->
+       let leaves = List.sort compare (List.map string_of_bytes (pimage_leaf_hashes img)) in
+       let live = List.sort compare (List.filter_map (fun o -> o) c.cs) in
+       check "mirror" ("WIREPOL.decode." ^ label) (leaves = live && int_of_nat consumed = String.length hx / 2)
+         (fun () -> Printf.sprintf "decoded %d leaf records, reference has %d live leaves; consumed %d of %d"
+             (List.length leaves) (List.length live) (int_of_nat consumed) (String.length hx / 2))
+     | None -> fail "mirror" ("WIREPOL.decode." ^ label) "mirror decoder rejects the bytes the implementation wrote")
+  (* WIREMAP label rows numleaves cached(hash:pos,..) nodes(pos:hash:rem,..) hex : decode the bytes with the mirror and compare with the dumped maps *)
+  | ["WIREMAP"; label; rows; numleaves; cached; nodes; hx] ->
+    (match decode_map_bytes (bytes_of_string (unhex hx)) with
+     | Some (img, consumed) ->
+       let dc = List.sort compare (List.map (fun (h, p) -> hex_of (string_of_bytes h) ^ ":" ^ string_of_n p) img.m_cached) in
+       let dn = List.sort compare (List.map (fun (p, (h, r)) -> string_of_n p ^ ":" ^ hex_of (string_of_bytes h) ^ ":" ^ b01 r) img.m_nodes) in
+       let ec = List.sort compare (split_list cached) and en = List.sort compare (split_list nodes) in
+       check "mirror" ("WIREMAP." ^ label)
+         (dc = ec && dn = en && string_of_n img.m_rows = rows && string_of_n img.m_numleaves = numleaves
+          && int_of_nat consumed = String.length hx / 2
+          && String.equal (string_of_bytes (encode_map_image img)) (unhex hx))
+         (fun () -> Printf.sprintf "decoded rows=%s n=%s cached=%d nodes=%d consumed=%d; dumped rows=%s n=%s cached=%d nodes=%d len=%d"
+             (string_of_n img.m_rows) (string_of_n img.m_numleaves) (List.length dc) (List.length dn) (int_of_nat consumed)
+             rows numleaves (List.length ec) (List.length en) (String.length hx / 2))
+     | None -> fail "mirror" ("WIREMAP." ^ label) "mirror decoder rejects the bytes the implementation wrote")
   | ["EQ"; label; a; b] ->
     check "prop" ("EQ." ^ label) (String.equal a b) (fun () -> Printf.sprintf "a=%s b=%s" a b)
   | t :: _ -> fail "harness" t "unknown event"
